@@ -4,6 +4,7 @@
 package vh
 
 import (
+	"bytes"
 	"bufio"
 	"encoding/json"
 	"errors"
@@ -56,6 +57,11 @@ func (o *Out) Emit(v interface{}, boundaryOK bool) {
 	b, err := json.Marshal(v)
 	if err != nil {
 		Fatal("marshal: %v", err)
+	}
+	// TLC's Json module cannot read null: a nil slice is logged as the empty sequence (records never use
+	// null for anything else, and payloads are logged as numbers, not strings)
+	if bytes.Contains(b, []byte(":null")) {
+		b = bytes.ReplaceAll(b, []byte(":null"), []byte(":[]"))
 	}
 	o.w.Write(b)
 	o.w.WriteByte('\n')
